@@ -41,7 +41,7 @@ def gen_cases(tier, seed):
 
 def required(tier):
     return {"rt.decided": 60000, "rt.class.leading_zeros": 2000, "rt.class.empty": 1, "str.decided": 100000,
-            "str.ref_accepts": 2000, "str.class.outside_alphabet": 3000, "str.class.whitespace": 3000, "str.class.non_ascii": 500, "str.class.shorter_than_checksum": 1000, "cli.encoded": 30, "cli.crossed_modes": 30, "argtypes.calls": 100}
+            "str.ref_accepts": 2000, "str.class.outside_alphabet": 3000, "str.class.whitespace": 3000, "str.class.non_ascii": 500, "str.class.shorter_than_checksum": 1000, "cli.encoded": 30, "cli.crossed_modes": 30, "cli.base_level_output_format": 60, "argtypes.calls": 100}
 
 
 def exhaustive(tier, counts):
@@ -259,7 +259,7 @@ def run_case(kind, params, ctx):
         ln = rng.choice([1, 2, 20, 21, 33, 64])
         eb = clihelp.EDGE_BYTES[params.get("edge", 7)]
         if eb is None:
-            data = rng.choice([b"", b"\x00" * rng.choice([1, 3]) + rand_bytes(rng, ln), rand_bytes(rng, ln)])
+            data = [b"", b"\x00" * rng.choice([1, 3]) + rand_bytes(rng, ln), rand_bytes(rng, ln)][(params["salt"] + (1 if params["check"] else 0)) % 3] if params["fmt"] != "raw" else [b"", rand_bytes(rng, ln)][params["check"]]
         else:
             data = clihelp.edgy(rng, ln, where=["both", "end", "start"][params.get("where", 0)], byte=eb)
         fmt, chk = params["fmt"], params["check"]
@@ -276,6 +276,13 @@ def run_case(kind, params, ctx):
         got = clihelp.parse_out(r2["out"], "hex")
         if not r2["ok"] or got != data:
             ctx.violation(f"cli/decode-wrong/{'check' if chk else 'plain'}", f"bits base58 --decode of {exp!r} gave {r2['out'][:60]!r} (ret {r2['ret']!r}, exit {r2['exit']!r}), expected {data.hex()}")
+        # the output format given on the BASE command (`bits -0b base58 --decode ..`): the only place it can be given for this subcommand
+        for ofmt in ("bin", "hex"):
+            r5 = clihelp.run([clihelp.out_flag(ofmt), "base58", "--decode"] + (["--check"] if chk else []), exp)
+            ctx.count("cli.base_level_output_format")
+            txt5 = r5["out"].strip()
+            if not r5["ok"] or clihelp.parse_out(r5["out"], ofmt) != data or len(txt5) != len(data) * (8 if ofmt == "bin" else 2):
+                ctx.violation(f"cli/decode-wrong/base-level-output-format:{ofmt}", f"bits {clihelp.out_flag(ofmt)} base58 --decode of {exp!r} printed {r5['out'][:70]!r}, expected {data.hex()} in {ofmt}")
         # the two modes crossed: a checksummed string decoded PLAINLY keeps its four checksum bytes; a plain string decoded
         # with --check is refused (unless its tail happens to be a checksum)
         ctx.count("cli.crossed_modes")
